@@ -495,6 +495,11 @@ func bytesFrom(v ssa.Value, pred func(ssa.Value) bool) bool {
 				return true
 			}
 		}
+		// a private copy: make([]byte, len(src)) filled by copy
+		if mk, ok := x.(*ssa.MakeSlice); ok {
+			buf = mk
+			return true
+		}
 		return false
 	})
 	if buf == nil {
